@@ -9,9 +9,14 @@
  * Line protocol (one answer line per op line):
  *   xrc HEX                          -> "<ret> <hex of the C string left in buf>"   (_extract_rc)
  *   dsh S K FANOUT CMDTMO SCRIPT[;SCRIPT...]
- *        SCRIPT = c<0|1>,o<hex>,v<int>,d<ms>,t<0|1>   |   x1  (rcmd_create fails for this target: _thd_init leaves
+ *        SCRIPT = c<0|1>,o<hex>,v<int>,d<ms>,t<0|1|2>[,e<hex>]   |   x1  (rcmd_create fails for this target: _thd_init leaves
  *                 it in state DSH_CANCELED and its thread is never started, as after ^C ^Z)
  *                                    -> "ret <int> exit <status>" | "noret exit <status>" | "noret sig <n>"
+ *        t1 = stdout stays open and silent until rcmd_signal (an idle command: the time-out is noticed through
+ *        the watchdog's SIGALRM interrupting xpoll); t2 = the command keeps writing "x\n" every 20 ms until
+ *        rcmd_signal (a chatty command: the worker is busy and notices the expiry itself at the top of its poll
+ *        loop), then writes the bytes e<hex> (what a command that traps TERM still prints, e.g. the marker line)
+ *        and closes.
  *        dsh() runs in a forked child (it is a once-per-process function); the child's main-like
  *        wrapper does `return dsh (&opt)`, i.e. the exit status is the low 8 bits, as in main.c.
  *   xd e<code> | xd s<sig> | xd null -> "<ret>"      (exec_destroy of execcmd.c on a real child; exit_exec.c)
@@ -39,7 +44,10 @@ struct script {
     int outlen;
     int rv;
     int delay_ms;
-    int hang;                   /* keep stdout open until rcmd_signal */
+    int hang;                   /* 1: keep stdout open until rcmd_signal; 2: keep writing until rcmd_signal */
+    volatile int signalled;
+    unsigned char *epilogue;    /* written after the signal (hang == 2) */
+    int epilen;
     int canceled;               /* rcmd_create returns NULL */
     int wfd;
 };
@@ -72,6 +80,35 @@ static void *_closer(void *arg)
     return NULL;
 }
 
+static void *_chatter(void *arg)
+{
+    struct script *s = arg;
+    struct timespec ts = { 0, 20 * 1000000L };
+    while (!s->signalled) {
+        if (write(s->wfd, "x\n", 2) != 2)
+            break;
+        nanosleep(&ts, NULL);
+    }
+    if (s->epilen > 0 && write(s->wfd, s->epilogue, s->epilen) != s->epilen)
+        ;
+    close(s->wfd);
+    s->wfd = -1;
+    return NULL;
+}
+
+static void start_thread(void *(*fn)(void *), struct script *s)
+{
+    pthread_t th;
+    pthread_attr_t at;
+    sigset_t all, old;
+    pthread_attr_init(&at);
+    pthread_attr_setdetachstate(&at, PTHREAD_CREATE_DETACHED);
+    sigfillset(&all);
+    pthread_sigmask(SIG_BLOCK, &all, &old);
+    pthread_create(&th, &at, fn, s);
+    pthread_sigmask(SIG_SETMASK, &old, NULL);
+}
+
 int rcmd_connect(struct rcmd_info *rcmd, char *host, char *addr, char *locuser, char *remuser, char *cmd,
                  int nodeid, bool error_fd)
 {
@@ -88,18 +125,12 @@ int rcmd_connect(struct rcmd_info *rcmd, char *host, char *addr, char *locuser, 
     if (s->outlen > 0 && write(pfd[1], s->out, s->outlen) != s->outlen)
         abort();
     s->wfd = pfd[1];
-    if (s->hang) {
+    if (s->hang == 2) {
+        start_thread(_chatter, s);
+    } else if (s->hang) {
         /* stays open until rcmd_signal */
     } else if (s->delay_ms > 0) {
-        pthread_t th;
-        pthread_attr_t at;
-        sigset_t all, old;
-        pthread_attr_init(&at);
-        pthread_attr_setdetachstate(&at, PTHREAD_CREATE_DETACHED);
-        sigfillset(&all);
-        pthread_sigmask(SIG_BLOCK, &all, &old);
-        pthread_create(&th, &at, _closer, s);
-        pthread_sigmask(SIG_SETMASK, &old, NULL);
+        start_thread(_closer, s);
     } else {
         close(pfd[1]);
         s->wfd = -1;
@@ -112,7 +143,9 @@ int rcmd_signal(struct rcmd_info *rcmd, int signum)
 {
     struct script *s = rcmd->arg;
     (void) signum;
-    if (s && s->hang && s->wfd >= 0) {
+    if (s && s->hang == 2)
+        s->signalled = 1;           /* the chatter thread writes its epilogue and closes */
+    else if (s && s->hang && s->wfd >= 0) {
         close(s->wfd);
         s->wfd = -1;
     }
@@ -201,6 +234,7 @@ static int parse_scripts(char *spec)
             case 'v': s->rv = atoi(f + 1); break;
             case 'd': s->delay_ms = atoi(f + 1); break;
             case 't': s->hang = atoi(f + 1); break;
+            case 'e': s->epilogue = unhex(f + 1, &s->epilen); break;
             case 'x': s->canceled = atoi(f + 1); break;
             default: return -1;
             }
